@@ -21,8 +21,8 @@ ASSUMPTIONS = [
     'steps (including the injected drift) stay below 0.45 cell so that minimum-image steps are the true steps',
     'tolerances: residual drift 1e-12, positions 1e-9 (circular)',
 ]
-N_CASES = {'quick': 400, 'thorough': 10000}
-BUDGET_S = {'quick': 200, 'thorough': 2400}
+N_CASES = {'quick': 400, 'thorough': 100000}
+BUDGET_S = {'quick': 200, 'thorough': 3600}
 SYMBOLS = ['Li', 'Na', 'S', 'Si', 'P', 'O']
 
 _mon = Monitor()
